@@ -185,6 +185,17 @@ func Eq(a, b *Term) *Term {
 				return Eq(x, y)
 			}
 		}
+		// bit-vector = int2bv(x): compare as integers (x mod 2^w), which keeps the
+		// query in linear integer arithmetic
+		for k := 0; k < 2; k++ {
+			p, q := a, b
+			if k == 1 {
+				p, q = b, a
+			}
+			if p.op == "int2bv" && q.op != "int2bv" && !q.IsConst() {
+				return Eq(BV2Int(q, false), BV2Int(p, false))
+			}
+		}
 	}
 	if (a.w == SortInt) != (b.w == SortInt) {
 		a, b = coerceInt(a), coerceInt(b)
@@ -536,6 +547,20 @@ func IArith(op string, a, b *Term) *Term {
 		if a == b {
 			return mk("const", w, "", big.NewInt(0))
 		}
+		if w == SortInt && isZero(a) {
+			// 0 - x*c  ->  x*(-c)
+			if x, c, ok := mulConst(b); ok {
+				return IArith("*", x, IntBig(new(big.Int).Neg(c)))
+			}
+		}
+		if w == SortInt && a.op == "+" {
+			if a.args[0] == b {
+				return a.args[1]
+			}
+			if a.args[1] == b {
+				return a.args[0]
+			}
+		}
 	case "*":
 		if isZero(a) || isZero(b) {
 			return mk("const", w, "", big.NewInt(0))
@@ -546,9 +571,98 @@ func IArith(op string, a, b *Term) *Term {
 		if isOne(b) {
 			return a
 		}
+	case "mod":
+		if w == SortInt && b.IsConst() && b.c.Sign() > 0 {
+			if lo, hi := a.bounds(); lo != nil && hi != nil && lo.Sign() >= 0 && hi.Cmp(b.c) < 0 {
+				return a
+			}
+			if lo, hi := a.bounds(); a.op != "div" && lo != nil && hi != nil && hi.Sign() < 0 && new(big.Int).Neg(lo).Cmp(b.c) <= 0 {
+				// -d <= a < 0: a mod d = a + d
+				return IArith("+", a, b)
+			}
+			// (A + r) mod d with d | A and 0 <= r < d  ->  r
+			if _, r, ok := splitMultiple(a, b.c); ok {
+				return r
+			}
+			// (x * c) mod d with c | d  ->  (x mod (d/c)) * c
+			if x, c, ok := mulConst(a); ok && c.Sign() > 0 {
+				if q, m := new(big.Int).QuoRem(b.c, c, new(big.Int)); m.Sign() == 0 {
+					return IArith("*", IArith("mod", x, IntBig(q)), IntBig(c))
+				}
+			}
+		}
 	case "div":
 		if isOne(b) {
 			return a
+		}
+		if w == SortInt && b.IsConst() && b.c.Sign() > 0 {
+			if lo, hi := a.bounds(); lo != nil && hi != nil && lo.Sign() >= 0 && hi.Cmp(b.c) < 0 {
+				return IntC(0)
+			}
+			if q, ok := exactDiv(a, b.c, 0); ok {
+				return q
+			}
+			// (A + r) div d with d | A and 0 <= r < d  ->  A/d
+			if q, _, ok := splitMultiple(a, b.c); ok {
+				return q
+			}
+			// (x * c) div d with c | d  ->  x div (d/c)
+			if x, c, ok := mulConst(a); ok && c.Sign() > 0 && c.Cmp(big.NewInt(1)) > 0 {
+				if q, m := new(big.Int).QuoRem(b.c, c, new(big.Int)); m.Sign() == 0 && q.Cmp(big.NewInt(1)) > 0 {
+					return IArith("div", x, IntBig(q))
+				}
+			}
+		}
+		// (x * c) div d with d | c  ->  x * (c/d)
+		if w == SortInt && b.IsConst() && b.c.Sign() > 0 && a.op == "*" {
+			for k := 0; k < 2; k++ {
+				if c := a.args[k]; c.IsConst() {
+					q, m := new(big.Int).QuoRem(c.c, b.c, new(big.Int))
+					if m.Sign() == 0 {
+						return IArith("*", a.args[1-k], IntBig(q))
+					}
+				}
+			}
+		}
+	}
+	// bit-field recomposition: bv2int(v[h1:0]) + bv2int(v[h2:h1+1]) * 2^(h1+1)  ->  bv2int(v[h2:0])
+	if w == SortInt && op == "+" {
+		for k := 0; k < 2; k++ {
+			p, q := a, b
+			if k == 1 {
+				p, q = b, a
+			}
+			pv, ph, pl, ok1 := bvField(p)
+			if !ok1 || pl != 0 {
+				continue
+			}
+			if f, c, ok := mulConst(q); ok {
+				if qv, qh, ql, ok2 := bvField(f); ok2 && qv == pv && ql == ph+1 && c.Cmp(new(big.Int).Lsh(big.NewInt(1), uint(ql))) == 0 {
+					return BV2Int(Extract(pv, qh, 0), false)
+				}
+			}
+		}
+	}
+	// positional recomposition: (x mod M) + ((x div M) mod B) * M  ->  x mod (M*B)
+	if w == SortInt && op == "+" {
+		for k := 0; k < 2; k++ {
+			p, q := a, b
+			if k == 1 {
+				p, q = b, a
+			}
+			if px, pm, ok := asMod(p); ok && q.op == "*" {
+				p = &Term{op: "mod", args: []*Term{px, IntBig(pm)}}
+				for j := 0; j < 2; j++ {
+					m, f := q.args[j], q.args[1-j]
+					if m.IsConst() && m.c.Cmp(p.args[1].c) == 0 && f.op == "div" && f.args[0] == p.args[0] && f.args[1].IsConst() && f.args[1].c.Cmp(m.c) == 0 {
+						return p.args[0]
+					}
+					if m.IsConst() && m.c.Cmp(p.args[1].c) == 0 && f.op == "mod" && f.args[1].IsConst() &&
+						f.args[0].op == "div" && f.args[0].args[0] == p.args[0] && f.args[0].args[1].IsConst() && f.args[0].args[1].c.Cmp(m.c) == 0 {
+						return IArith("mod", p.args[0], IntBig(new(big.Int).Mul(m.c, f.args[1].c)))
+					}
+				}
+			}
 		}
 	}
 	// (x + c1) + c2 -> x + (c1+c2)
@@ -574,6 +688,103 @@ func IArith(op string, a, b *Term) *Term {
 	}
 	return r
 }
+// asMod matches x mod M, also in the form x + M that the rewriter gives it when
+// -M <= x < 0.
+func asMod(p *Term) (*Term, *big.Int, bool) {
+	if p.op == "mod" && p.args[1].IsConst() {
+		return p.args[0], p.args[1].c, true
+	}
+	if p.op == "+" && p.w == SortInt && p.args[1].IsConst() && p.args[1].c.Sign() > 0 {
+		if lo, hi := p.args[0].bounds(); lo != nil && hi != nil && hi.Sign() < 0 && new(big.Int).Neg(lo).Cmp(p.args[1].c) <= 0 {
+			return p.args[0], p.args[1].c, true
+		}
+	}
+	return nil, nil, false
+}
+
+// exactDiv returns t/d when t is syntactically a multiple of d (sums, differences
+// and constant multiples).
+func exactDiv(t *Term, d *big.Int, depth int) (*Term, bool) {
+	if t.w != SortInt || depth > 12 {
+		return nil, false
+	}
+	if t.IsConst() {
+		q, m := new(big.Int).QuoRem(t.c, d, new(big.Int))
+		if m.Sign() == 0 {
+			return IntBig(q), true
+		}
+		return nil, false
+	}
+	if x, c, ok := mulConst(t); ok {
+		q, m := new(big.Int).QuoRem(c, d, new(big.Int))
+		if m.Sign() == 0 {
+			return IArith("*", x, IntBig(q)), true
+		}
+		if xq, ok := exactDiv(x, d, depth+1); ok {
+			return IArith("*", xq, IntBig(c)), true
+		}
+		return nil, false
+	}
+	if t.op == "+" || t.op == "-" {
+		a, ok1 := exactDiv(t.args[0], d, depth+1)
+		if !ok1 {
+			return nil, false
+		}
+		b, ok2 := exactDiv(t.args[1], d, depth+1)
+		if !ok2 {
+			return nil, false
+		}
+		return IArith(t.op, a, b), true
+	}
+	return nil, false
+}
+
+// bvField matches bv2int(v[hi:lo]) (unsigned) and bv2int(v) for a non-composite v.
+func bvField(t *Term) (*Term, int, int, bool) {
+	if t.op != "bv2int" {
+		return nil, 0, 0, false
+	}
+	x := t.args[0]
+	if x.op == "extract" {
+		var h, l int
+		fmt.Sscanf(x.name, "%d %d", &h, &l)
+		return x.args[0], h, l, true
+	}
+	return x, x.w - 1, 0, true
+}
+
+// mulConst matches x * c.
+func mulConst(t *Term) (*Term, *big.Int, bool) {
+	if t.op == "*" && t.w == SortInt {
+		if t.args[1].IsConst() {
+			return t.args[0], t.args[1].c, true
+		}
+		if t.args[0].IsConst() {
+			return t.args[1], t.args[0].c, true
+		}
+	}
+	return nil, nil, false
+}
+
+// splitMultiple matches A + r where A = x*c with d | c and 0 <= r < d, and returns
+// A/d and r.
+func splitMultiple(t *Term, d *big.Int) (*Term, *Term, bool) {
+	if t.op != "+" || t.w != SortInt {
+		return nil, nil, false
+	}
+	for k := 0; k < 2; k++ {
+		A, r := t.args[k], t.args[1-k]
+		q, ok := exactDiv(A, d, 0)
+		if !ok {
+			continue
+		}
+		if lo, hi := r.bounds(); lo != nil && hi != nil && lo.Sign() >= 0 && hi.Cmp(d) < 0 {
+			return q, r, true
+		}
+	}
+	return nil, nil, false
+}
+
 func ICmp(op string, a, b *Term) *Term { // < <= > >=
 	if a.IsConst() && b.IsConst() {
 		c := a.c.Cmp(b.c)
@@ -800,10 +1011,14 @@ func BV2Int(t *Term, signed bool) *Term {
 	if t.op == "int2bv" && t.w == 64 && t.args[0].fitsInt64() {
 		return t.args[0]
 	}
-	u := mk("bv2int", SortInt, "", nil, t)
+	// the unsigned value first (decomposed into a sum where the bits are assembled
+	// from disjoint pieces), then the two's complement reading
+	u := BV2Int(t, false)
 	half := new(big.Int).Lsh(big.NewInt(1), uint(t.w-1))
 	full := new(big.Int).Lsh(big.NewInt(1), uint(t.w))
-	setBounds(u, big.NewInt(0), new(big.Int).Sub(full, big.NewInt(1)))
+	if ul, uh := u.bounds(); ul != nil && uh != nil && ul.Sign() >= 0 && uh.Cmp(half) < 0 {
+		return u
+	}
 	r := Ite(ICmp("<", u, IntBig(half)), u, IArith("-", u, IntBig(full)))
 	return setBounds(r, new(big.Int).Neg(half), new(big.Int).Sub(half, big.NewInt(1)))
 }
